@@ -13,7 +13,7 @@ LEVEL_TEXT = (
     'is resolver-typed, F2); (d) the items forms collect frames / values in the very pass that yields (label, index) and forward them '
     'together with the built hierarchy; Series.from_concat pairs joined values with the joined index; (e) overlay walks containers in '
     'input order and changes the accumulated result only through fillna / fillna_by_values over arrays aligned to the shared index. '
-    'Option forwarding: in every concatenation / overlay constructor each call to a resolved callee that accepts a parameter named like one of the function\'s own parameters passes it on (confirmed exceptions listed in sfa/rules/forwardrules.py). Sibling defaults: a parameter taken by the same-named method of several container classes has the same default in each (confirmed exceptions listed in sfa/rules/forwardrules.py). Carried dtype: the dtype under which concat_resolved / resolve_dtype_iter join their inputs is widened over every input inside the loop (never recomputed from the current input and a fixed one). Not decided: strategy equivalence of vstack, union order of ufunc_set_iter, fill dtype choices.')
+    'Option forwarding: in every concatenation / overlay constructor each call to a resolved callee that accepts a parameter named like one of the function\'s own parameters passes it on (confirmed exceptions listed in sfa/rules/forwardrules.py). Sibling defaults: a parameter taken by the same-named method of several container classes has the same default in each (confirmed exceptions listed in sfa/rules/forwardrules.py). Carried dtype: the dtype under which concat_resolved / resolve_dtype_iter join their inputs is widened over every input inside the loop (never recomputed from the current input and a fixed one). Fill arrays: util.full_for_fill (behind reindex, shift and the aligned axis of concatenation) types its array by resolving the target dtype with the dtype of the fill element on every path. Not decided: strategy equivalence of vstack, union order of ufunc_set_iter, fill dtype choices.')
 
 CLAIM = dict(
     text=LEVEL_TEXT,
@@ -30,3 +30,4 @@ def run(ctx: Ctx) -> None:
     resolve.f1_loop_dtype_carried(ctx)
     forwardrules.forwarding(ctx, modules=None, prefixes=('from_concat', 'from_overlay', '_from_concat'), suffix='concat', floor=10, what='concatenation / overlay constructor')
     forwardrules.sibling_defaults(ctx, prefixes=('from_concat', 'from_overlay', '_from_concat'), suffix='concat', floor=4)
+    resolve.f1_full_for_fill(ctx)
